@@ -752,8 +752,51 @@ def gen_nexthop6(ctx):
             for (g, ll) in (('10.0.0.1', 'fe80::1'), ('2001:db8::1', '169.254.0.1'), ('10.0.0.1', '169.254.0.1'))]
 
 
+ASN_EDGE = [0, 1, 23456, 65534, 65535, 65536, 65537, 131072, 2 ** 31, 4200000000, 2 ** 32 - 1, 2 ** 32]
+
+
+def gen_asn(ctx):
+    """every attribute that carries AS numbers, in BOTH AS-number modes (asn4 False / True), with AS numbers
+    on both sides of 65535 and of 2^32 (where a number does not fit the mode construction has to fail):
+    AGGREGATOR, AS_PATH (one number, mixed segments, all four segment types), AS4_PATH / AS4_AGGREGATOR
+    (no construct branch today: skipped silently - kept so that a branch added later is walked), and the
+    extended communities with an AS field (2-octet-AS and 4-octet-AS route target / origin, redirect-to-VRF,
+    link bandwidth, traffic rate)"""
+    rng = ctx.rng
+    out = []
+
+    def one(cls, attr, asn4):
+        a = dict(BASE_ATTR)
+        a.update(attr)
+        out.append(upd(cls, {'attr': a, 'nlri': ['10.9.8.0/23']}, asn4=asn4))
+        out.append(upd(cls, {'attr': attr}, asn4=asn4))
+
+    for asn4 in (False, True):
+        for asn in ASN_EDGE:
+            for ip in ('1.2.3.4', '0.0.0.0'):
+                one('asn.aggregator', {7: [asn, ip]}, asn4)
+            one('asn.aggregator', {7: [asn, '10.0.0.1'], 2: [[2, [asn]]]}, asn4)
+            one('asn.as4_aggregator', {18: [asn, '10.0.0.1']}, asn4)
+            one('asn.as4_aggregator', {7: [23456, '10.0.0.1'], 18: [asn, '10.0.0.1']}, asn4)
+            for t in (1, 2, 3, 4):
+                one('asn.aspath', {2: [[t, [asn]]]}, asn4)
+            one('asn.aspath', {2: [[2, [65001, asn, 65002]], [1, [asn, 1]]]}, asn4)
+            one('asn.aspath', {2: [[2, [asn] * 64]]}, asn4)                 # 128 / 256 octets of AS numbers
+            one('asn.as4_path', {17: [[2, [asn, 65001]]]}, asn4)
+            one('asn.as4_path', {2: [[2, [23456, 65001]]], 17: [[2, [asn, 65001]]]}, asn4)
+            # extended communities with an AS field: administrator on both sides of 65535 for each layout
+            for code in (0x0002, 0x0202, 0x0003, 0x0203, 0x8008, 0x4004, 0x8006):
+                for num in (0, 65535, 65536, 2 ** 32 - 1):
+                    one('asn.extcommunity', {16: [[code, '%d:%d' % (asn, num)]]}, asn4)
+        for _ in range(12 if ctx.thorough else 4):       # seeded mixtures around the two limits
+            asns = [rng.choice(ASN_EDGE + [rng.randrange(1, 70000), rng.randrange(60000, 2 ** 32)]) for _ in range(4)]
+            one('asn.mixed', {2: [[2, asns[:2]], [1, asns[2:]]], 7: [asns[0], ip4(rng.randrange(1 << 32))],
+                              16: [[0x0002, '%d:1' % asns[1]], [0x0202, '%d:1' % asns[2]]]}, asn4)
+    return out
+
+
 def generate(ctx):
-    cases = gen_small(ctx) + gen_open(ctx) + gen_v4(ctx) + gen_mp(ctx) + gen_text(ctx)
+    cases = gen_small(ctx) + gen_open(ctx) + gen_v4(ctx) + gen_asn(ctx) + gen_mp(ctx) + gen_text(ctx)
     cases += gen_prefixlen(ctx) + gen_nexthop6(ctx)
     generate.esi0_repaired = esi0_repaired()
     if generate.esi0_repaired or known_registered(ESI0_ID):
@@ -1015,7 +1058,9 @@ def run(ctx):
     return {
         'evaluations': len(cases) + n_corr + n_wit, 'distinct': distinct,
         'rule': 'constructor inputs: exhaustive prefix lengths (0..32, 0..128) for every family, every attribute '
-                'at its length/width boundaries (255/256 octets, 2^16, 2^32), capability subsets, every SR-policy '
+                'at its length/width boundaries (255/256 octets, 2^16, 2^32), both AS-number modes crossed with AS '
+                'numbers on both sides of 65535 and 2^32 for every attribute with an AS field (AGGREGATOR, AS_PATH, '
+                'AS4_*, extended communities), capability subsets, every SR-policy '
                 'sub-TLV and segment kind, flowspec components/operators, EVPN route and ESI types, seeded '
                 'random attribute combinations, and free text: every string value of one representative input per '
                 'constructor replaced by legal-but-unusual text (empty, blank, NUL, non-ASCII, non-ASCII digits, '
